@@ -1,6 +1,7 @@
 (* NoPanic.v — definitions for the whole-interpreter panic-freedom theorem (C09):
-   * operator_site: the panic sites of the filter operators (Ops.v, Values.v fv_eq) and of the regex
-     compilation of filtering.rs::apply_filter (Exec.precheck_static);
+   * operator_site: the panic sites of the filter operator functions (Ops.v, Values.v fv_eq: an operand
+     outside the operator's domain) and of the regex compilation of filtering.rs::apply_filter
+     (Exec.precheck_static);
    * safe P r: the outcome r is a value satisfying P, or a panic at an operator site;
    * np_ok: the decidable static well-formedness of a lowered query under which every other panic
      site of Exec.v (the engine's own bookkeeping) is unreachable;
@@ -20,10 +21,9 @@ Definition operator_sites : list string :=
     "filtering.rs:112 unreachable"; "filtering.rs:123 unreachable"; "filtering.rs:126 unreachable";
     "filtering.rs:148 unreachable"; "filtering.rs:159 unreachable"; "filtering.rs:170 unreachable";
     "filtering.rs:186 unreachable"; "filtering.rs:213 unreachable"; "filtering.rs:222 unreachable";
-    (* Ops.v: the two dispatch tables *)
-    "filtering.rs:459 regex argument was not a string";
-    "filtering.rs:460 regex argument was not a valid regex";
-    "filtering.rs:470 unreachable"; "filtering.rs:534 unreachable";
+    (* (the four sites of the two dispatch tables of Ops.v — the regex expect()s of
+       apply_filter_with_static_argument_value after the stage-building pre-check has passed, and the
+       unreachable!() arms for unary operations — are NOT listed: they are proved unreachable) *)
     (* Exec.v precheck_static: the regex of a static argument is compiled when the stage is built *)
     "filtering.rs: regex argument was not a valid regex";
     "filtering.rs: regex argument was not a string" ].
